@@ -216,6 +216,17 @@ def corpus(ctx):
                 ctx.violation("failing-input", "corpus: small magnitudes lose their significant digits", {"qref": q, "assignments_in_order": [["N", n]]}, v, float(exp))
 
 
+    # F15: an implementation with a fixed point at the inner argument (g(-3) = -3) left the outer call in place
+    q = {"name": "root", "input_params": ["N"], "resources": [{"name": "T", "type": "additive", "value": "g(g(1 - 4)) + g(g(N))"}]}
+    st, r = try_compile(q)
+    ctx.stats["corpus_cases"] += 1
+    if st == "ok":
+        v = evaluate(r.routine, {"N": 2}, functions_map={"g": lambda x: 2 * x + 3}).routine.resources["T"].value
+        if not isinstance(v, (int, float)) or v != 14:
+            ctx.violation("failing-input", "corpus F15: user function not applied to an outer call whose inner call evaluates to its own argument",
+                          {"qref": q, "assignments_in_order": [["N", 2]], "functions_map": ["g"]}, str(v), 14)
+
+
 def gen_fexpr(rng, syms, depth):
     """function-heavy expressions: nested calls of the same user function are the norm"""
     if depth <= 0 or rng.random() < 0.2:
